@@ -15,11 +15,20 @@ Violation keys name the mechanism:
   escape:<Exc>:<hio function>                an exception left parse() on a well-formed message (fed whole)
   truth:<kind>:<framing>:<field>             R(whole) differs from the description in <field>
   frag:<kind>:<framing>:<field>              R(partition) differs from R(whole), first in <field>
+SERVER-DRIVEN mode (request sequences): the same comparison through the real `serving.Server` object - its service()
+rounds run over a stub connection (vf.mon.http_server), one scripted read per round - so that requestant/responder reuse
+on a kept connection is exercised: keep-alive sequences of 2-3 requests, pipelined (every 2-split of the byte string)
+and sequential (each later request sent after the previous response, every 2-split of the 2nd and 3rd request, service
+rounds between the pieces).  What the WSGI app saw per request must equal the description and every request must get
+its response, in order.  Keys: server:truth:<field>, server:frag:<field>, server:escape:<Exc>:<function>.
+BIG messages: a fixed schedule of messages with a body / single chunk larger than 64 KiB (whole, head splits, 1-byte).
 """
 import random
+from urllib.parse import unquote
 
 from vf import gen_http as G
 from vf.mon import http_parse as H
+from vf.mon import http_server as S
 
 ID = "C13"
 LEVEL = "exploration"
@@ -57,7 +66,9 @@ REQUIRE = {"feeds": 20000, "two_split_partitions": 10000, "one_byte_partitions":
            "framing:length": 40, "framing:chunked": 40, "framing:close": 10, "framing:none": 10,
            "eol:lf": 40, "eol:crlf": 40, "pipelined_sequences": 40, "cut_between_cr_and_lf": 500,
            "responses_with_interim": 72, "interim_with_headers": 30, "two_splits_inside_interim_block": 1000,
-           "interim_then:length": 10, "interim_then:chunked": 10, "interim_then:close": 10}
+           "interim_then:length": 10, "interim_then:chunked": 10, "interim_then:close": 10,
+           "server_sequences": 32, "server_feeds": 5000, "server_two_splits_of_later_requests": 3000,
+           "server_sequential_feeds": 2000, "server_requests_recovered_whole": 64, "big_messages_over_64KiB": 4}
 EXHAUSTIVE = {"quick": "for every generated sequence: all partitions of its bytes into two reads",
               "thorough": "for every generated sequence: all partitions of its bytes into two reads"}
 
@@ -100,9 +111,50 @@ def interim_schedule():
                         k += 1
 
 
+def server_case(r, tier, k):
+    n = 2 + k % 2
+    seq = G.gen_sequence(r, "request", n=n, maxbody=40 if tier == "quick" else r.choice([40, 300]),
+                         eol=["crlf", "lf", "mixed"][k % 3], persist=True if k % 4 else None)
+    raw = b"".join(G.s2b(d["raw"]) for d in seq)
+    return {"kind": "request", "origin": "server", "msgs": seq, "app_mode": ["length", "chunked"][(k // 2) % 2],
+            "rounds_between": 1 + k % 3, "rand": [G.random_cuts(r, len(raw), c) for c in (2, 3, 5, 9)], "req_method": "GET"}
+
+
+def big_case(k):
+    """message with more than 64 KiB behind the head: Content-Length body / one big chunk / close-delimited"""
+    r = random.Random(f"C13:big:{k}")
+    kind, framing, eol = [("response", "length", "crlf"), ("request", "chunked", "crlf"), ("response", "close", "lf"),
+                          ("request", "length", "lf"), ("response", "chunked", "lf"), ("request", "length", "crlf")][k % 6]
+    size = [70, 100, 80, 130, 90, 200][k % 6] * 1024
+    unit = G.gen_body(r, 3000) + b"\r\n0\r\n\r\nHTTP/1.1 200 OK\n\n"
+    body = (unit * (size // len(unit) + 1))[:size]
+    d = (G.gen_response if kind == "response" else G.gen_request)(r, framing=framing, eol=eol, version="1.1", maxbody=8,
+                                                                  exts=False, trailers=True)
+    d["body"] = G.b2s(body)
+    if framing == "length":
+        for h in d["headers"]:
+            if h[0].lower() == "content-length":
+                h[1] = str(len(body))
+    elif framing == "chunked":
+        d["chunks"] = [["%x" % len(body), [], G.b2s(body)]]
+        d["parms"] = {n: v for n, v in d["last"][1]}
+    d["raw"] = G.b2s(G.encode(d))
+    headlen = len(d["raw"]) - len(body) if framing != "chunked" else d["raw"].index(d["body"][:64])
+    n = len(d["raw"])
+    return {"kind": kind, "origin": "big", "msgs": [d], "req_method": "GET", "split_limit": headlen + 40,
+            "extra_splits": sorted({65536, 65537, headlen + 65536, n - 1, n - 2, n - 7} & set(range(1, n))),
+            "rand": [G.random_cuts(r, n, c) for c in (2, 5)] + [list(range(70000, n, 70000))]}
+
+
 def cases(tier, seed, shard, nshards):
     if shard == 0:
         yield _probe_case()
+    for k in range(32):     # fixed sample of server-driven keep-alive sequences
+        if k % nshards == shard:
+            yield server_case(random.Random(f"C13:server:{k}"), tier, k)
+    for k in range(4 if tier == "quick" else 6):
+        if k % nshards == shard:
+            yield big_case(k)
     for k, count, nh, eol, framing, pipelined in interim_schedule():
         if k % nshards != shard:
             continue
@@ -128,6 +180,9 @@ def cases(tier, seed, shard, nshards):
         seq = G.gen_sequence(rng, kind, maxtotal=maxtotal, maxbody=maxbody, eol=eol, interim="random")
         yield {"kind": kind, "origin": "gen", "msgs": seq, "rand": _plan(rng, seq, tier),
                "req_method": seq[0].get("req_method", "GET")}
+    if tier != "quick":
+        for j in range(12):
+            yield server_case(rng, tier, rng.randrange(1000))
 
 
 # --------------------------------------------------------------------------
@@ -208,7 +263,112 @@ def body_class(d):
     return [("\r\n" in b), ("\r" in b.replace("\r\n", "")), ("\n" in b.replace("\r\n", ""))]
 
 
+def env_diff(call, d):
+    """first thing the WSGI app saw that contradicts the request description, or None"""
+    want = [("REQUEST_METHOD", d["method"]), ("QUERY_STRING", d["query"]), ("SERVER_PROTOCOL", "HTTP/" + d["version"]),
+            ("body", d["body"]), ("CONTENT_LENGTH", str(len(d["body"])))]
+    for k, v in want:
+        if call.get(k) != v:
+            return k, call.get(k), v
+    if unquote(call.get("PATH_INFO", "")) != d["path"]:
+        return "PATH_INFO", call.get("PATH_INFO"), d["path"]
+    for n, v in d["headers"]:
+        k = "HTTP_" + n.replace("-", "_").upper()
+        if call.get(k) != v:
+            return k, call.get(k), v
+    return None
+
+
+def run_server_case(case, ctx):
+    descs = case["msgs"]
+    raws = [G.s2b(d["raw"]) for d in descs]
+    raw = b"".join(raws)
+    n = len(raw)
+    mode, rb = case["app_mode"], case["rounds_between"]
+    reported = set()
+
+    def report(key, msg):
+        if key not in reported:
+            reported.add(key)
+            ctx.violation(key, msg + f"; app_mode={mode} rounds_between={rb} bytes={raw[:300]!r}")
+
+    def comparable(res):
+        return {"calls": res["calls"], "markers": res["markers"], "closed": res["closed"], "left": res["left"],
+                "raised": res["raised"][:2] if res["raised"] else None}
+
+    ctx.count("server_sequences")
+    whole = S.drive([raw], mode, rb)
+    ctx.count("server_feeds")
+    W = comparable(whole)
+    ok = True
+    if whole["raised"]:
+        ok = False
+        report(f"server:escape:{whole['raised'][0]}:{whole['raised'][1]}", f"Server.service() raised {whole['raised']} (one read)")
+    else:
+        for i, d in enumerate(descs):
+            if i >= len(whole["calls"]):
+                ok = False
+                report("server:truth:request-not-delivered", f"request {i} of {len(descs)} never reached the app (one read); "
+                       f"left={whole['left'][:60]!r} closed={whole['closed']}")
+                break
+            ed = env_diff(whole["calls"][i], d)
+            if ed:
+                ok = False
+                report(f"server:truth:{ed[0] if not ed[0].startswith('HTTP_') else 'header'}",
+                       f"request {i} (one read): app saw {ed[0]}={ed[1]!r}, generated {ed[2]!r}")
+                break
+            ctx.count("server_requests_recovered_whole")
+        if ok and (len(whole["calls"]) != len(descs) or whole["markers"] != list(range(len(descs)))):
+            ok = False
+            report("server:truth:responses", f"{len(descs)} requests in one read: app calls={len(whole['calls'])} "
+                   f"responses written={whole['markers']}")
+
+    def attempt(schedule, family, what):
+        res = S.drive(schedule, mode, rb)
+        ctx.count("server_feeds")
+        ctx.count(family)
+        ctx.count("server_service_rounds", res["rounds"])
+        c = comparable(res)
+        if c != W:
+            field = next(k for k in ("raised", "calls", "markers", "closed", "left") if c[k] != W[k])
+            shown = (len(c["calls"]), len(W["calls"])) if field == "calls" and len(c["calls"]) != len(W["calls"]) else (c[field], W[field])
+            report(f"server:escape:{res['raised'][0]}:{res['raised'][1]}" if (field == "raised" and res["raised"]) else f"server:frag:{field}",
+                   f"{family} {what}: {field} is {shown[0]!r} but {shown[1]!r} when the sequence arrives in one read "
+                   f"(app calls {len(c['calls'])}/{len(descs)}, responses {c['markers']}, closed={c['closed']}, unread={c['left'][:60]!r})")
+
+    # pipelined: every 2-split of the whole byte string (so every 2-split of the 2nd and 3rd request too)
+    first = len(raws[0])
+    for c in range(1, n):
+        attempt([raw[:c], raw[c:]], "server_pipelined_feeds", f"cut={c}")
+        if c > first:
+            ctx.count("server_two_splits_of_later_requests")
+    attempt([raw[i:i + 1] for i in range(n)], "server_pipelined_feeds", "1-byte reads")
+    for cuts in case["rand"]:
+        if cuts:
+            attempt(G.pieces(raw, cuts), "server_pipelined_feeds", f"cuts={cuts}")
+    # sequential keep-alive: request i is sent after response i-1 was written; every 2-split of request i >= 1
+    for i in range(1, len(raws)):
+        pre = []
+        for j in range(i):
+            pre += [raws[j], ("await", j + 1)]
+        post = []
+        for j in range(i + 1, len(raws)):
+            post += [("await", j), raws[j]]
+        for c in range(1, len(raws[i])):
+            attempt(pre + [raws[i][:c], raws[i][c:]] + post, "server_sequential_feeds", f"request {i} cut={c}")
+            ctx.count("server_two_splits_of_later_requests")
+    sig = ["server", mode, rb, [[d["framing"], d["eol"], d["version"], d["persist"]] for d in descs]]
+    ctx.seen("sequence_shapes", sig)
+    if ok:
+        ctx.nontrivial(sig)
+    if not reported:
+        ctx.sample({"server_driven": True, "bytes": raw[:300], "requests": len(descs), "app_saw": whole["calls"][:1],
+                    "feeds": 2 * n})
+
+
 def run_case(case, ctx):
+    if case["origin"] == "server":
+        return run_server_case(case, ctx)
     kind = case["kind"]
     descs = case["msgs"]
     raw = b"".join(G.s2b(d["raw"]) for d in descs)
@@ -308,7 +468,10 @@ def run_case(case, ctx):
     crlf = G.crlf_cuts(raw)
     cs = set(crlf)
     ctx.count("cut_between_cr_and_lf", len(crlf))
-    for c in range(1, n):
+    limit = case.get("split_limit")     # big messages: two-splits through the head and at listed offsets only
+    if limit:
+        ctx.count("big_messages_over_64KiB")
+    for c in (range(1, n) if not limit else sorted(set(range(1, min(n, limit))) | set(case["extra_splits"]))):
         try_partition([c], "two_split_partitions")
     if n > 1:
         try_partition(G.all_one_byte(n), "one_byte_partitions")
